@@ -18,6 +18,7 @@
 package c13
 
 import (
+	"bytes"
 	"encoding/json"
 	"fmt"
 	"math/rand"
@@ -62,6 +63,8 @@ type wresult struct {
 	HasPrefix []bool   `json:"has_prefix,omitempty"`
 	Gen       []byte   `json:"gen,omitempty"` // GenerateOverlap(texts[0]).Text
 	SecTitles []string `json:"sec_titles,omitempty"`
+	OwnAgain  [][]byte `json:"own_again,omitempty"` // layout: Chunk(doc) once more on the same Chunker, after the overlap run
+	Pieces2   [][]byte `json:"pieces2,omitempty"`   // layout: ChunkWithOverlapEnabled(doc) once more
 }
 
 // wbatch is one request: the worker notes the id of the case it is about to
@@ -201,6 +204,19 @@ func runOne(w *wcase) (res wresult) {
 			res.Prefix = append(res.Prefix, []byte(c.OverlapPrefix))
 			res.HasPrefix = append(res.HasPrefix, c.HasOverlapPrefix)
 			res.SecTitles = append(res.SecTitles, c.Metadata.SectionTitle)
+		}
+		// the same Chunker asked again for the same document: the chunks' own content
+		// is what it was before overlap text was added, and a second overlap run adds
+		// the same overlap, not more
+		if r3, err := ck.Chunk(doc); err == nil {
+			for _, c := range r3.Chunks {
+				res.OwnAgain = append(res.OwnAgain, []byte(c.Text))
+			}
+		}
+		if r4, err := ck.ChunkWithOverlapEnabled(doc); err == nil {
+			for _, c := range r4.Chunks {
+				res.Pieces2 = append(res.Pieces2, []byte(c.Text))
+			}
 		}
 	default:
 		panic("bad kind " + w.Kind)
@@ -461,6 +477,28 @@ func evaluate(c *fw.Ctx, w *wcase, r *wresult) *verdict {
 			return v
 		}
 		c.Count("overlaps_checked", int64(len(r.Pieces)))
+		same := func(a, b [][]byte) int {
+			if len(a) != len(b) {
+				return 0
+			}
+			for i := range a {
+				if !bytes.Equal(a[i], b[i]) {
+					return i
+				}
+			}
+			return -1
+		}
+		if r.OwnAgain != nil {
+			c.Count("chunker_reuse_compared", 1)
+			if i := same(r.Own, r.OwnAgain); i >= 0 {
+				return &verdict{"chunker-reuse/own-content-changed", fmt.Sprintf("Chunker.Chunk on the same Chunker and document after ChunkWithOverlapEnabled: %d chunks (before: %d); first difference at chunk %d", len(r.OwnAgain), len(r.Own), i)}
+			}
+		}
+		if r.Pieces2 != nil {
+			if i := same(r.Pieces, r.Pieces2); i >= 0 {
+				return &verdict{"chunker-reuse/overlap-stacked", fmt.Sprintf("ChunkWithOverlapEnabled twice on the same Chunker and document: %d chunks (first run: %d); first difference at chunk %d", len(r.Pieces2), len(r.Pieces), i)}
+			}
+		}
 	}
 	return nil
 }
